@@ -571,6 +571,37 @@ theorem ordered_ident_inj {op : Op} (hm : moduleOk op = true) (hs : isMulti op =
     {a b : PInfo} (ha : a ∈ orderedParams op) (hb : b ∈ orderedParams op) (h : a.ident = b.ident) : a = b :=
   eq_of_nodup_map (·.ident) _ (ordered_idents_nodup hm hs) a ha b hb h
 
+theorem sigOf_multi {op : Op} (h : isMulti op = true) :
+    sigOf op = ovlPositional op ++ (ovlKeywordOnly ((op.body.map (·.media)).getD [])).map (·, false)
+      ++ [(contentTypeParam, false)] := by
+  unfold sigOf; simp [h]
+
+/-- The implementation method for several media types (F12 repaired): its positional parameters are the entries of
+    `ordered_params` that are not the body parameter, under distinct identifiers. -/
+theorem ovl_idents_nodup {op : Op} (hm : moduleOk op = true) (hmulti : isMulti op = true) :
+    ((ovlParams op).map (·.ident)).Nodup := by
+  have := moduleOk_nodup hm
+  rw [sigOf_multi hmulti, List.map_append, List.map_append] at this
+  have h1 := (List.nodup_append.mp (List.nodup_append.mp this).1).1
+  unfold ovlPositional at h1
+  rw [List.map_map] at h1
+  exact h1
+
+theorem info_loc_ne_body (p : GParam) : p.info.loc ≠ .body := by
+  cases hl : p.loc <;> simp [GParam.info, GLoc.toS, hl]
+
+/-- Two entries of `ordered_params` other than the body parameter with the same identifier are the same entry - in the
+    single-content method and in the implementation method for several media types alike. -/
+theorem nonbody_ident_inj {op : Op} (hm : moduleOk op = true) {a b : PInfo}
+    (ha : a ∈ orderedParams op) (hb : b ∈ orderedParams op) (hla : a.loc ≠ .body) (hlb : b.loc ≠ .body)
+    (h : a.ident = b.ident) : a = b := by
+  cases hmulti : isMulti op with
+  | false => exact ordered_ident_inj hm hmulti ha hb h
+  | true =>
+    have ha' : a ∈ ovlParams op := List.mem_filter.mpr ⟨ha, by simpa using hla⟩
+    have hb' : b ∈ ovlParams op := List.mem_filter.mpr ⟨hb, by simpa using hlb⟩
+    exact eq_of_nodup_map (·.ident) _ (ovl_idents_nodup hm hmulti) a ha' b hb' h
+
 /-! ## url, dicts -/
 
 theorem urlPieces_ok (locals : List Str) (args : GArgs) :
